@@ -173,8 +173,8 @@ func variantsEsc(v *rj.Value, withEscapes bool) []string {
 	out = append(out, sb.String())
 	// escaped strings
 	if withEscapes && (strings.Contains(base, `"s"`) || strings.Contains(base, `"a"`)) {
-		e := strings.ReplaceAll(base, `"s"`, `"s"`)
-		e = strings.ReplaceAll(e, `"a"`, `"a"`)
+		e := strings.ReplaceAll(base, `"s"`, `"\u0073"`)
+		e = strings.ReplaceAll(e, `"a"`, `"\u0061"`)
 		out = append(out, e)
 	}
 	return out
@@ -560,6 +560,65 @@ func runEqualPairs(ctx *core.Ctx, id string, legacy bool, vs []*rj.Value, withVa
 			ctx.Sample(map[string]string{"Equal_a": txt(a), "b": txt(vs[(i*5+1)%len(vs)])}, 8)
 		}
 	})
+}
+
+// runEqualEscapes: every JSON string escape, in every spelling, at the root, in an
+// array, as a member value and as a member name: all spellings of one string are
+// equal (both argument orders), spellings of different strings are not.
+func runEqualEscapes(ctx *core.Ctx, id string) {
+	groups := [][]string{
+		{`"a/b"`, `"a\/b"`, `"a\u002fb"`, `"a\u002Fb"`},
+		{`"a\\/b"`, `"a\u005c/b"`, `"a\\\/b"`},
+		{`"q\"\\"`, `"q\u0022\u005c"`},
+		{`"\b\f\n\r\t"`, `"\u0008\u000c\u000a\u000d\u0009"`, `"\u0008\u000C\n\u000D\t"`},
+		{"\"\u00e9\"", `"\u00e9"`, `"\u00E9"`},
+		{"\"\U0001F600\"", `"\ud83d\ude00"`, `"\uD83D\uDE00"`},
+		{`"<>&"`, `"\u003c\u003e\u0026"`, `"\u003C>&"`},
+		{`"/"`, `"\/"`, `"\u002f"`},
+		{`"u002f"`, `"\u0075002f"`},
+	}
+	ctxs := []func(string) string{
+		func(x string) string { return x },
+		func(x string) string { return "[" + x + "]" },
+		func(x string) string { return `{"k":` + x + `}` },
+		func(x string) string { return "{" + x + ":1}" },
+		func(x string) string { return `[{"m":[` + x + `,null]}]` },
+	}
+	m := &mergeRun{id: id, ctx: ctx}
+	n := ctx.Counter("equal_escape_pairs")
+	for _, wrap := range ctxs {
+		for gi, g := range groups {
+			for _, a := range g {
+				for gj, h := range groups {
+					for _, b := range h {
+						at, bt := wrap(a), wrap(b)
+						av, err1 := rj.Parse([]byte(at))
+						bv, err2 := rj.Parse([]byte(bt))
+						if err1 != nil || err2 != nil {
+							panic("harness: bad escape text " + at + " / " + bt)
+						}
+						want := rj.Equal(av, bv)
+						if want != (gi == gj) {
+							panic("harness: escape groups are not disjoint: " + at + " / " + bt)
+						}
+						r := m.Equal(at, bt)
+						atomic.AddInt64(n, 1)
+						if r.Panic != "" {
+							m.viol("equal-panics", panicKey(r), fmt.Sprintf("Equal(%s, %s) panics: %s", at, bt, r.Panic), "Equal", at, bt)
+						} else if r.Bool != want {
+							m.viol("equal-wrong", fmt.Sprintf("equal-wrong:%v:escapes", want), fmt.Sprintf("Equal(%s, %s) = %v, structural equality (strings compared after unescaping) is %v", at, bt, r.Bool, want), "Equal", at, bt)
+						}
+					}
+				}
+			}
+		}
+	}
+}
+
+// wideObjects: all objects over three names with values from {absent, null, 1,
+// {"q":null}} - adjacent nulls, nulls followed by members that need pruning.
+func wideObjects() []*rj.Value {
+	return objectsOver([]string{"x", "y", "z"}, parseAll([]string{`null`, `1`, `{"q":null}`}))
 }
 
 // ---- C07: MergeMergePatches composes ----
